@@ -87,7 +87,7 @@ func (c *Ctx) rulesR4resolver() {
 		case *ssa.Parameter:
 			// a hosted helper of TargetStates: the argument at its only call site
 			if pf := x.Parent(); pf != ts && c.hostedBy(pf, ts) {
-				if sites, vals := c.allCallersOf(pf); len(sites) == 1 && len(vals) == 0 {
+				if sites, host := c.hostSites(pf, true); host != nil && len(sites) == 1 {
 					if ci, ok := sites[0].Instr.(ssa.CallInstruction); ok {
 						args := ci.Common().Args
 						for i, p := range pf.Params {
@@ -490,12 +490,18 @@ func (c *Ctx) rulesR4ctxret() {
 						continue
 					}
 					n++
-					var all func(v ssa.Value, seen map[ssa.Value]bool, d int) bool
-					all = func(v ssa.Value, seen map[ssa.Value]bool, d int) bool {
+					var carries func(target, v ssa.Value, seen map[ssa.Value]bool, d int) bool
+					all := func(v ssa.Value, seen map[ssa.Value]bool, d int) bool {
+						return carries(call, v, seen, d)
+					}
+					carries = func(target, v ssa.Value, seen map[ssa.Value]bool, d int) bool {
+						all := func(v ssa.Value, seen map[ssa.Value]bool, d int) bool {
+							return carries(target, v, seen, d)
+						}
 						if d > 16 {
 							return false
 						}
-						if v == ssa.Value(call) {
+						if v == target {
 							return true
 						}
 						if seen[v] {
@@ -524,6 +530,30 @@ func (c *Ctx) rulesR4ctxret() {
 										if all(el, map[ssa.Value]bool{}, d+1) {
 											return true
 										}
+									}
+								}
+							}
+							// a private helper of the same package that is handed the
+							// list and returns it (extended) on every path
+							if callee := x.Call.StaticCallee(); callee != nil && callee.Pkg == f.Pkg && callee.Object() != nil && !callee.Object().Exported() && len(callee.Blocks) > 0 && len(callee.Params) == len(x.Call.Args) && d < 8 {
+								for j, ar := range x.Call.Args {
+									if _, ok := ar.Type().Underlying().(*types.Slice); !ok || !all(ar, map[ssa.Value]bool{}, d+1) {
+										continue
+									}
+									every := len(returnsOf(callee)) > 0
+									for _, cr := range returnsOf(callee) {
+										one := false
+										for _, rv := range retVals(cr) {
+											if _, ok := rv.Type().Underlying().(*types.Slice); ok && carries(callee.Params[j], rv, map[ssa.Value]bool{}, d+8) {
+												one = true
+											}
+										}
+										if !one {
+											every = false
+										}
+									}
+									if every {
+										return true
 									}
 								}
 							}
@@ -1368,12 +1398,17 @@ func (c *Ctx) guardsHosted(ins ssa.Instruction, root *ssa.Function) []Guard {
 		return gs
 	}
 	for d := 0; d < 4 && f != root; d++ {
-		sites, vals := c.allCallersOf(f)
-		if len(sites) != 1 || len(vals) != 0 {
+		sites, host := c.hostSites(f, true)
+		if host == nil {
 			break
 		}
-		gs = append(gs, guardsOf(sites[0].Instr.Block())...)
-		f = topFunc(sites[0].Fn)
+		if len(sites) == 1 {
+			gs = append(gs, guardsOfDeep(sites[0].Instr.Block())...)
+		} else {
+			// several sites in the host: only what all of them agree on
+			gs = append(gs, commonGuards(sites)...)
+		}
+		f = host
 	}
 	return gs
 }
@@ -2018,4 +2053,28 @@ func nilGuarded(at ssa.Instruction, v ssa.Value, addr bool, sameVar func(x, v ss
 		}
 	}
 	return false
+}
+
+// commonGuards: the branch outcomes that dominate every one of the sites
+// (same condition value, same polarity).
+func commonGuards(sites []callSite) []Guard {
+	var out []Guard
+	for i, s := range sites {
+		gs := guardsOf(s.Instr.Block())
+		if i == 0 {
+			out = gs
+			continue
+		}
+		var keep []Guard
+		for _, g := range out {
+			for _, h := range gs {
+				if g.Cond == h.Cond && g.Pol == h.Pol {
+					keep = append(keep, g)
+					break
+				}
+			}
+		}
+		out = keep
+	}
+	return out
 }
